@@ -69,9 +69,7 @@ def freeze(x):
     if not isinstance(x, Arr):
         return x
     b = Buf(x.buf.n, x.buf.elem, x.buf.owner, mutable=False)
-    for extra in ("sct", "is_var"):
-        if hasattr(x.buf, extra):
-            setattr(b, extra, getattr(x.buf, extra))
+    b.sct, b.is_var = x.buf.sct, x.buf.is_var
     return Arr(x.dialect, x.kind, b, x.lo, x.n, x.symtype)
 
 
@@ -141,7 +139,7 @@ def _symtype(ops):
 def sct_of(x):
     """abstract scalar 'shape class' (0: 0-d like, 1: length-1 vector) of an abs scalar"""
     if isinstance(x, Arr) and x.dialect == "abs" and x.kind == "sc":
-        return getattr(x.buf, "sct", ZERO)
+        return x.buf.sct if x.buf.sct is not None else ZERO
     return ZERO
 
 
@@ -562,3 +560,24 @@ def shape_equal(sa, sb):
             return False
         return True if sa[1] == 0 else T.eq(sa[2], sb[2])
     return T.eq(sa[1], sb[1])
+
+
+def merge(cond, a, b):
+    """ite(cond, a, b) on numeric values; None if the two cannot be one value"""
+    if is_num(a) and is_num(b):
+        return T.ite(cond, T.to_real(T.lift(a)), T.to_real(T.lift(b)))
+    if not (isinstance(a, Arr) and isinstance(b, Arr)):
+        return None
+    if a.dialect != b.dialect or a.kind != b.kind:
+        return None
+    a, b = freeze(a), freeze(b)
+    n = a.n if a.n is b.n else T.ite(cond, a.n, b.n)
+    if a.is_scalar:
+        r = mk_scalar(a.dialect, a.kind, T.ite(cond, a.at(0), b.at(0)), "fresh")
+        sa, sb = sct_of(a), sct_of(b)
+        r.buf.sct = sa if sa is sb else T.ite(cond, sa, sb)
+    else:
+        r = mk_vec(a.dialect, a.kind, n, lambda i: T.ite(cond, a.at(i), b.at(i)), "fresh", symtype=a.symtype or b.symtype)
+    oa, ob = a.buf.owner, b.buf.owner
+    r.buf.owner = "fresh" if oa == "fresh" and ob == "fresh" else (oa if oa != "fresh" else ob)
+    return r
